@@ -409,6 +409,17 @@ impl Context {
                 fileids.insert(fileid);
             }
         }
+        // A tombstone can only be dropped together with every older file that may still hold a
+        // value of the deleted key, otherwise the key comes back when the storage is rebuilt.
+        let mut all_fileids = self.stats.iter().map(|e| *e.key()).collect::<Vec<_>>();
+        all_fileids.sort_unstable();
+        let mut older_all_merged = true;
+        for fileid in all_fileids {
+            if !older_all_merged && self.stats.get(&fileid).map_or(false, |e| e.tombstones > 0) {
+                fileids.remove(&fileid);
+            }
+            older_all_merged &= fileids.contains(&fileid);
+        }
         Ok(fileids)
     }
 }
@@ -486,7 +497,7 @@ impl Writer {
             if datafile_entry.value.is_some() {
                 stats.add_live();
             } else {
-                stats.add_dead(index.len);
+                stats.add_tombstone(index.len);
             }
             debug!(
                 entry_len = %index.len,
@@ -868,7 +879,7 @@ where
                 stats
                     .entry(fileid)
                     .or_default()
-                    .add_dead(datafile_index.len);
+                    .add_tombstone(datafile_index.len);
                 // The key is deleted, drop the entry that was added by an earlier value
                 if let Some((_, prev_keydir_entry)) = keydir.remove(&datafile_entry.key) {
                     stats
